@@ -15,15 +15,16 @@ import (
 // ------------------------------------------------------------ scripted types
 // Marshal behaviour is scripted by the value (Script field); unmarshal behaviour by the data ("<script>:<payload>").
 const (
-	sRight   = iota // right data / value
-	sWrong          // wrong data / value
-	sErr            // error, no data
-	sErrData        // error together with data
-	sPanic          // panic
+	sRight    = iota // right data / value
+	sWrong           // wrong data / value
+	sErr             // error, no data
+	sErrData         // error together with data
+	sPanic           // panic
+	sEmptyNil        // no error, nil data (marshal) / leaves the value empty (unmarshal); the expected data is "" / the zero value
 	nScripts
 )
 
-var scriptNames = [...]string{"right", "wrong", "error", "error+data", "panic"}
+var scriptNames = [...]string{"right", "wrong", "error", "error+data", "panic", "empty"}
 
 func marshalScript(script int, payload string) ([]byte, error) {
 	switch script {
@@ -35,6 +36,8 @@ func marshalScript(script int, payload string) ([]byte, error) {
 		return nil, errors.New("boom: scripted failure")
 	case sErrData:
 		return []byte(payload), errors.New("boom: scripted failure")
+	case sEmptyNil:
+		return nil, nil
 	}
 	panic("kaboom: scripted panic")
 }
@@ -54,6 +57,8 @@ func unmarshalScript(data []byte) (payload string, set bool, err error) {
 		return "", false, errors.New("boom: scripted failure")
 	case "error+data":
 		return s[i+1:], true, errors.New("boom: scripted failure")
+	case "empty":
+		return "", false, nil
 	}
 	panic("kaboom: scripted panic")
 }
@@ -248,6 +253,15 @@ func unmet(c caseSpec, marshalDir bool) []string {
 	}
 	errTxt, _ := scriptErrText(c.Script)
 	hasResult := c.Script == sRight || c.Script == sWrong || c.Script == sErrData
+	if c.Script == sEmptyNil { // the result is empty: it equals the expectation exactly when the case expects the empty data / zero value
+		if c.Pred != pNil {
+			return []string{"missing_error"}
+		}
+		if c.Different {
+			return []string{"data_or_value_differs"}
+		}
+		return nil
+	}
 	if c.Pred == pNil {
 		if errTxt != "" {
 			rs = append(rs, "unexpected_error")
@@ -305,12 +319,18 @@ func marshalExpected(c caseSpec) string {
 	if c.Different {
 		return "something else"
 	}
+	if c.Script == sEmptyNil {
+		return ""
+	}
 	return rightPayload
 }
 func unmarshalInput(c caseSpec) string { return scriptNames[c.Script] + ":" + rightPayload }
 func unmarshalExpectedPayload(c caseSpec) string {
 	if c.Different {
 		return "something else"
+	}
+	if c.Script == sEmptyNil {
+		return ""
 	}
 	return rightPayload
 }
@@ -357,7 +377,9 @@ func runHelper[T any](rec *recorder, a listArg, mkValue func(c caseSpec, marshal
 		for i, c := range a.Cases {
 			cs[i] = test.CaseBinary[T]{Constraint: constraintOf(c.Constraint), Before: hook[test.CaseBinary[T]](c.Before), After: hook[test.CaseBinary[T]](c.After), Error: buildPred(c.Pred, c.Script), Value: mkValue(c, m)}
 			if m {
-				cs[i].Data = []byte(marshalExpected(c))
+				if e := marshalExpected(c); e != "" { // expected "no data" is written as nil: testify tells a nil []byte from an empty one (statement silent: don't care)
+					cs[i].Data = []byte(e)
+				}
 			} else {
 				cs[i].Data = []byte(unmarshalInput(c))
 			}
@@ -414,6 +436,17 @@ func probe(a listArg) (kind, detail string) {
 				}
 				return &P{Payload: unmarshalExpectedPayload(c)}
 			}, th)
+		case "P":
+			var th test.TypeHelper[P]
+			if a.Custom {
+				th = customHelper[P]{mk: func() P { return P{} }, empty: func(v P) bool { return v == P{} }, equal: func(x, y P) bool { return x == y }}
+			}
+			runHelper(rec, a, func(c caseSpec, m bool) P {
+				if m {
+					return P{Script: c.Script, Payload: rightPayload}
+				}
+				return P{Payload: unmarshalExpectedPayload(c)}
+			}, th)
 		default:
 			var th test.TypeHelper[N]
 			if a.Custom {
@@ -441,7 +474,7 @@ func probe(a listArg) (kind, detail string) {
 			}
 		}
 	}
-	if a.Type == "N" {
+	if a.Type == "N" || a.Type == "P" && marshalDir { // P as a value has its Marshal* methods on the pointer only: it lacks the marshaler interfaces
 		if len(a.Cases) == 0 {
 			return "", ""
 		}
@@ -478,7 +511,7 @@ func main() {
 		"non-trivial = list with at least one applicable case", func(r *mc.Run) {
 		p := mc.NewProbe(r, "case_list", nil, probe)
 		r.Assume("oracle: a case applicable to the direction is unmet iff a hook fails, or (no predicate) an error occurs or data/value differs, or (predicate) the predicate does not hold on the error or a result accompanies the expected error; a panic counts as an error whose text starts with 'panic: '; a list must be reported iff some case is unmet or the type lacks the interface")
-		r.Assume("don't-care: a type lacking the interface when no case is applicable to the direction; empty case lists on such a type")
+		r.Assume("don't-care: a type lacking the interface when no case is applicable to the direction; empty case lists on such a type; nil versus empty-but-non-nil []byte as expected binary data (never generated)")
 		// all single cases
 		var singles []caseSpec
 		for con := 0; con < 3; con++ {
@@ -494,8 +527,8 @@ func main() {
 				}
 			}
 		}
-		types := []string{"V", "*P"}
-		r.Phase(fmt.Sprintf("all %d single-case lists x 6 helpers x types {V, *P} x {nil, custom TypeHelper}", len(singles)), "complete", func() {
+		types := []string{"V", "*P", "P"}
+		r.Phase(fmt.Sprintf("all %d single-case lists x 6 helpers x types {V (value receivers), *P (pointer type), P (value of a pointer-receiver type: lacks the marshaler interfaces)} x {nil, custom TypeHelper}", len(singles)), "complete", func() {
 			n := int64(len(singles))
 			r.Parallel(n, 16, func(w *mc.W, i int64) {
 				c := singles[i]
@@ -559,7 +592,7 @@ func main() {
 		r.Phase(fmt.Sprintf("all %d case lists of length 0,2,3 over a %d-case alphabet (pass, each failure reason, other-direction cases) x 6 helpers x types {V, *P, N}", len(lists), len(red)), "complete", func() {
 			r.Parallel(int64(len(lists)), 8, func(w *mc.W, i int64) {
 				for _, h := range helpers {
-					for _, ty := range []string{"V", "*P", "N"} {
+					for _, ty := range []string{"V", "*P", "N", "P"} {
 						w.Point()
 						w.NonTrivial()
 						p.Do(w, listArg{Helper: h, Type: ty, Custom: i%2 == 1 && !strings.HasPrefix(h, "Marshal"), Cases: lists[i]})
